@@ -24,6 +24,7 @@ type CPUCell struct {
 	Stopped int  // -1 symbolic, 0 false, 1 true
 	Op1     int  // -1: operand byte 1 symbolic, else fixed
 	DLZero  int  // -1 symbolic; 1: low byte of RD is zero; 0: non-zero
+	Dec     int  // 0: decimal flag symbolic; 1: D=0 (binary arithmetic); 2: D=1
 }
 
 func (c CPUCell) String() string {
@@ -33,6 +34,9 @@ func (c CPUCell) String() string {
 	}
 	if c.Op1 >= 0 {
 		s += fmt.Sprintf(" op1=%02X", c.Op1)
+	}
+	if c.Dec > 0 {
+		s += fmt.Sprintf(" D=%d", c.Dec-1)
 	}
 	return s
 }
@@ -63,6 +67,7 @@ type CellResult struct {
 	Dispatched *ssa.Function
 	Steps      int
 	Fetched    bool
+	Conds      map[string]*absint.Bool // gate key -> comparison, for the gated merges in this result
 	Branches   []*absint.Bool // conditions of undecided branches, in traversal order
 	BranchFns  []*ssa.Function
 }
@@ -232,7 +237,7 @@ func (m *CPUModel) RunFn(cell CPUCell, entry *ssa.Function, onRender func(Render
 	defer m.pool.Put(wk)
 	ip := wk.w.IP
 	ip.Reset()
-	res := &CellResult{Cell: cell, Entry: map[string]absint.Val{}, Final: map[string]absint.Val{}, AtDispatch: map[string]absint.Val{}}
+	res := &CellResult{Cell: cell, Entry: map[string]absint.Val{}, Final: map[string]absint.Val{}, AtDispatch: map[string]absint.Val{}, Conds: ip.In.Conds}
 	st := wk.w.NewState()
 	cpu := wk.cpu
 	S := m.Struct
@@ -246,6 +251,9 @@ func (m *CPUModel) RunFn(cell CPUCell, entry *ssa.Function, onRender func(Render
 	setByte("X", cell.X)
 	setByte("E", cell.E)
 	setByte("Interrupt", cell.Intr)
+	if cell.Dec > 0 {
+		setByte("D", cell.Dec-1)
+	}
 	if cell.Stopped >= 0 {
 		if i := fieldIndex(S, "Stopped"); i >= 0 {
 			k := absint.TriF
